@@ -181,6 +181,15 @@ async def history(rnd, acc, clock, cid):
     if n_out0 != 1:
         s = j.create_or_load("PEER", "ME")
         j.set_seq_num(s, next_num_out=n_out0, next_num_in=1)
+    if n_out0 == 5 and rnd.random() < 0.7:
+        # the journal has history from an earlier run / another engine sharing the store: frames whose SendingTime is written in whole
+        # seconds (legal FIX 4.4), i.e. of a different width than what is written today - a replay is made from these bytes
+        from asyncfix.message import MessageDirection as D_
+        s = j.create_or_load("PEER", "ME")
+        for q in range(1, 5):
+            j.persist_msg(fixwire.msg("D", q, "ME", "PEER", [(11, f"hist{q}"), (58, "w" * q)], sending_time=rnd.choice(["20230919-07:13:26", "20230919-07:13:26.5", "20230919-07:13:26.123456"])),
+                          s, D_.OUTBOUND)
+        acc.add("journals_with_history_in_another_sendingtime_width")
     ep = E.new_endpoint("generic", "ME", "PEER", j, hb=hb, name="ME",
                         replay_filter=lambda m: not str(m.get(11, "")).startswith("decl"))
     ep.vf_tap = E.Tap(clock, "ME")
